@@ -310,6 +310,17 @@ fn explore(ctx: &mut Ctx) {
         }
     }
     ctx.exhaustive_part("all strings of <= 5-6 chars x all &str delimiters of <= 3 chars over {é,è,a}, {个,丫,ñ}, {😀,😁,é} (chars sharing lead bytes)");
+    for s in gen::special_char_strings() {
+        let sp = s.chars().find(|c| !c.is_ascii() || *c == '\u{7f}' || *c == '\u{1b}').unwrap_or(',').to_string();
+        for dl in ["", ",", " ", sp.as_str()] {
+            eval(ctx, Case { s: s.clone(), delim: dl.into(), as_char: false, hist: None });
+            if dl.chars().count() == 1 {
+                eval(ctx, Case { s: s.clone(), delim: dl.into(), as_char: true, hist: None });
+                eval(ctx, Case { s: s.clone(), delim: dl.into(), as_char: true, hist: Some(0b0101) });
+            }
+        }
+    }
+    ctx.exhaustive_part("16 special chars (BOM, U+FFFD, Unicode white space ...) in 6 contexts x {empty, ',', ' ', the char itself} as delimiter");
     // long periodic delimiters: delimiter = U U c with U = a b^k; the text contains U U U c (the delimiter overlapping a
     // long partial match of itself) between ordinary pieces
     for k in (0..=70usize).chain([100, 127, 128, 129, 200]) {
